@@ -7,6 +7,6 @@ Extraction Language OCaml.
 Separate Extraction
   parse verify channel_new perform_verification parse_and_verify
   Commitments_parse Queries_parse OodFrame_parse Fri_num_partitions Fri_parse_remainder Fri_parse_layers
-  draw_integers_shape num_fri_layers parse_alloc alloc_bound parse_all parse_prefix
+  draw_integers_shape num_fri_layers parse_alloc parse_alloc_result alloc_bound parse_all parse_prefix
   read_Commitments read_Queries read_OodFrame read_FriProof read_ProofOptions read_Proof
   F64P F128P F62P mkAP.
